@@ -76,6 +76,12 @@ def mulG (M : Methods) (c : CurveParams) (bf : Int) (e : Int) : Except Err Pt :=
 def inverseN (M : Methods) (c : CurveParams) (a : Int) : Except Err Int :=
   if c.n = 0 then .error .assertion else M.inverseMod a c.n
 
+/-- one element of the list comprehension `[s_over_r * p + minus_E_over_r for p in points_list]` -/
+def recoverStep (M : Methods) (c : CurveParams) (sOverR : Int) (mE : Pt) (q : Pt) : Except Err Pt :=
+  match M.multiply q sOverR with
+  | .error e => .error e
+  | .ok t => add M c t mE
+
 /-- `Generator.possible_public_pairs_for_signature` -/
 def possiblePublicPairsForSignature (M : Methods) (c : CurveParams) (bf : Int) (value r s : Int)
     (yParity : Option Int) : Except Err (List Pt) :=
@@ -94,10 +100,7 @@ def possiblePublicPairsForSignature (M : Methods) (c : CurveParams) (bf : Int) (
       match mulG M c bf (-(invR * value)) with
       | .error e => .error e
       | .ok minusEOverR =>
-        match mapMExcept (fun q =>
-            match M.multiply q sOverR with
-            | .error e => .error e
-            | .ok t => add M c t minusEOverR) pts with
+        match mapMExcept (recoverStep M c sOverR minusEOverR) pts with
         | .error e => if e.isValueError then .ok [] else .error e
         | .ok l => .ok l
 
